@@ -394,13 +394,25 @@ def run_case(case, ctx):
         return
     if k == 'register':
         # n-bit hardware register: (a op b) mod 2^n
-        wide = (i % 4 == 0)
+        # independent digits of the case index (width class, operation, rank, rounding, extra blocks)
+        j_ = i
+        wide = (j_ % 4 == 0)
+        j_ //= 4
+        op_digit = j_ % 3
+        j_ //= 3
+        rank_digit = j_ % 2
+        j_ //= 2
+        r_digit = j_ % 5
+        j_ //= 5
+        mixed_digit = j_ % 3
+        j_ //= 3
+        qxq_digit = j_ % 2
         if wide:
             n = rng.choice([64, 65, 96, 128])
         else:
             n = rng.choice([1, 2, 3, 4, 8, 8, 12, 16, 16, 24, 31, 32, 33, 40, 52])
         s = rng.random() < 0.5
-        op = ('add', 'sub', 'mul')[i % 3]
+        op = ('add', 'sub', 'mul')[op_digit]
         nf = 0 if op == 'mul' else rng.choice([0, 0, n // 2, n])
         if n > 20 and op == 'mul' and not wide and n > 31:
             n = rng.choice([8, 16, 24, 31])
@@ -408,10 +420,10 @@ def run_case(case, ctx):
 
         def code():
             return rng.choice([lo, hi, rng.randint(lo, hi), rng.randint(lo, hi), hi - 1 if hi > lo else hi])
-        rank = i % 2
+        rank = rank_digit
         a = code() if rank == 0 else [code() for _ in range(3)]
         b = code() if rank == 0 else [code() for _ in range(3)]
-        r = G.ROUNDINGS[i % 5]
+        r = G.ROUNDINGS[r_digit]
 
         def mk(c, **kw):
             return Fxp(c, s, n, nf, raw=True, overflow='wrap', rounding=r, **kw)
@@ -423,7 +435,7 @@ def run_case(case, ctx):
         _try(lambda: oper(mk(a, op_sizing='same'), mk(b)))
         _try(lambda: func(mk(a), mk(b), sizing='same'))
         # operands of mixed signedness and different widths whose raw result needs 54..62 bits, stored into a short wrap register
-        if i % 3 == 2 or op == 'mul':
+        if mixed_digit == 2 or op == 'mul':
             wa, wb = rng.randint(30, 44), rng.randint(10, 62 - 44)
             sa = rng.random() < 0.5
             sb = not sa if rng.random() < 0.7 else sa
@@ -441,7 +453,7 @@ def run_case(case, ctx):
             reg = Fxp(None, sreg, nreg, 0, overflow='wrap')
             _try(lambda: reg.equal(xa * xb))
         # the ordinary Q x Q -> Q multiply / accumulate: the register keeps fewer fraction bits than the exact result has
-        if not wide and i % 2 == 0:
+        if not wide and qxq_digit == 0:
             wq = rng.choice([8, 12, 16, 24, 31, 32])
             fq = rng.randint(1, wq - 1)
             sq = rng.random() < 0.7
